@@ -47,16 +47,24 @@ StepO(e, obs) ==
               ELSE LET exp == [pend EXCEPT ![k] = IF p.c = "CLSE" THEN <<>> ELSE Tail(@)] IN
                    IF obs = exp THEN Ok(exp)
                    ELSE IF p.c = "CLSE" THEN Fail("C19.ClseForgets") ELSE Fail("C19.GetFifo")
+    [] e.op = "fill" ->       \* n packets WRTE 1..n parked for one pair, nothing retrieved from it: the model state is known
+         LET k == <<e.a0, e.a1>> exp == [pend EXCEPT ![k] = [i \in 1..e.n |-> [c |-> "WRTE", d |-> i]]] IN
+         IF obs = exp THEN Ok(exp) ELSE Fail("C19.PutUnderOwnKeyFifo")
+    [] e.op = "getq" ->       \* a get whose resulting state was not logged in full: result checked, state advanced by the model
+         IF e.res = NoKey \/ Key(e.res) \notin Match(e.a0, e.a1) THEN Fail("C19.GetOwnKey")
+         ELSE LET k == Key(e.res) p == Head(pend[k]) IN
+              IF p.c # e.c \/ p.d # e.d THEN Fail("C19.GetFifo") ELSE Ok([pend EXCEPT ![k] = IF p.c = "CLSE" THEN <<>> ELSE Tail(@)])
     [] e.op = "clear" -> LET exp == [pend EXCEPT ![<<e.a0, e.a1>>] = <<>>] IN IF obs = exp THEN Ok(exp) ELSE Fail("C19.ClearForgets")
     [] e.op = "clear_all" -> LET exp == [k \in Keys |-> <<>>] IN IF obs = exp THEN Ok(exp) ELSE Fail("C19.ClearAllForgets")
     [] e.op = "len" -> IF e.n = Cardinality({k \in Keys : pend[k] # <<>>}) THEN Same(obs, "C19.QueryMutates") ELSE Fail("C19.LenIsPendingKeys")
     [] e.op = "contains" -> IF e.b = (Match(e.a0, e.a1) # {}) THEN Same(obs, "C19.QueryMutates") ELSE Fail("C19.ContainsIffFind")
+    [] e.op = "raised" -> Fail("C19.OperationRaises")
     [] OTHER -> Fail("ENV.UnknownEvent")
 
 Next ==
   \/ /\ ~done /\ verdict = "ok" /\ l <= Len(Traces[tid])
      /\ LET e == Traces[tid][l] IN
-          /\ LET obs == Obs(e) IN StepO(e, obs)
+          /\ LET obs == IF e.op \in {"getq", "raised"} THEN pend ELSE Obs(e) IN StepO(e, obs)
      /\ l' = l + 1 /\ UNCHANGED <<tid, done>>
   \/ /\ ~done /\ (verdict # "ok" \/ l > Len(Traces[tid]))
      /\ PrintT(<<"VERDICT", tid, l, verdict>>)
